@@ -98,6 +98,85 @@ func init() {
 	})
 }
 
+func init() {
+	register("replay-multi", "direction A: replay TLC-generated Multi.tla cases (multi-source operators, every arrival order)", func(args []string) int {
+		fs := flag.NewFlagSet("replay-multi", flag.ExitOnError)
+		in := fs.String("in", "", "TLC output file")
+		out := fs.String("out", "", "result JSON")
+		modes := fs.String("modes", "ctl-unsafe,ctl-safe", "source modes")
+		_ = fs.Parse(args)
+		ms := strings.Split(*modes, ",")
+		var mu sync.Mutex
+		var all []pipe.Mismatch
+		byClass := map[string]int{}
+		perKey := map[string]int{}
+		raw := map[int]json.RawMessage{}
+		var samples []json.RawMessage
+		nontrivial := 0
+		chains := map[string]bool{}
+		type job struct {
+			i int
+			c *pipe.MCase
+		}
+		jobs := make(chan job, 256)
+		var wg sync.WaitGroup
+		for w := 0; w < 16; w++ {
+			wg.Add(1)
+			go func() {
+				defer wg.Done()
+				for j := range jobs {
+					var res []pipe.Mismatch
+					for _, m := range ms {
+						pipe.ReplayMulti(j.i, j.c, m, &res)
+					}
+					srcs := map[int]bool{}
+					for _, st := range j.c.Steps {
+						if st.Do == "push" {
+							srcs[st.Src] = true
+						}
+					}
+					mu.Lock()
+					for _, m := range res {
+						byClass[m.Class]++
+						key := m.Class + "@" + m.Chain + "@" + m.Mode
+						perKey[key]++
+						if perKey[key] <= 6 {
+							all = append(all, m)
+							if len(raw) < 2000 {
+								raw[m.Case] = json.RawMessage(j.c.Raw)
+							}
+						}
+					}
+					if len(srcs) >= 2 {
+						nontrivial++
+					}
+					chains[j.c.M.G] = true
+					if len(samples) < 3 && j.i%499 == 0 {
+						samples = append(samples, json.RawMessage(j.c.Raw))
+					}
+					mu.Unlock()
+				}
+			}()
+		}
+		n, err := pipe.ReadMCases(*in, func(i int, c *pipe.MCase) { jobs <- job{i, c} })
+		close(jobs)
+		wg.Wait()
+		if err != nil {
+			fmt.Fprintln(os.Stderr, err)
+			return 2
+		}
+		summary := map[string]any{"cases": n, "replays": len(ms) * n, "nontrivial": nontrivial, "chains": len(chains),
+			"mismatches": all, "by_class": byClass, "samples": samples, "raw": raw}
+		b, _ := json.Marshal(summary)
+		if err := os.WriteFile(*out, b, 0o644); err != nil {
+			fmt.Fprintln(os.Stderr, err)
+			return 2
+		}
+		fmt.Printf("{\"cases\": %d, \"mismatches\": %d}\n", n, len(all))
+		return 0
+	})
+}
+
 // syncable: the synchronous cold source can only play scripts without an Unsubscribe in the middle
 func syncable(c *pipe.Case) bool {
 	for i, st := range c.Steps {
